@@ -6,13 +6,17 @@
   values).  `eps` is the null-pivot threshold of the code; the theorems need `0 < eps` (with
   `eps = 0` the code accepts a null pivot and divides by it).
 
+  Sections: (a) LUDecomp, (b) LUSolve, (c) TinyMatrixSolve (generic and closed forms, vector and
+  matrix right-hand sides), (e) TinyMatrixInvert, (d) failure half (determinant), (f) QR.
+
   Not modelled: rounding.  "Residual bounded by conditioning × machine precision" is a statement
   about floating point; what is proved is the exact-arithmetic statement (residual = 0).
 -/
 import Mathlib.LinearAlgebra.Matrix.NonsingularInverse
 import Mathlib.Algebra.Order.Field.Rat
 import Mathlib.Tactic.NormNum
-import TfelVerif.C07.Tiny
+import Mathlib.Analysis.Real.Sqrt
+import TfelVerif.C07.QR
 
 set_option linter.unusedSectionVars false
 set_option linter.unusedVariables false
@@ -345,79 +349,63 @@ theorem luStep_null_column_fails {n i : Nat} (hi : i < n) {eps : K} (he : 0 < ep
   rw [absT_eq, h0 i (le_refl _) hi, abs_zero]
   exact he
 
-/-! ### (f) QR — partial
+/-! ### (f) QR (Householder) : `QRDecomp::exe`, `tq_product`, `back_substitute`
 
-Proved: the triangular back substitution of `QRDecomp::back_substitute` and its failure test.
-NOT proved (missing): the Householder loop of `QRDecomp::exe`/`tq_product`, i.e. the full statement
-  `qrSolve sqrt n e A b = some x → Solves n A x b`   (for `sqrt` with `sqrt t * sqrt t = t`, `0 ≤ t`)
-and `Q` orthogonal / `R` upper triangular / `Q R = A`.  The QR routines are covered by the
-bit-exact correspondence only. -/
+The square root is a parameter of the model; the theorems need `0 ≤ sqrt t` and
+`sqrt t * sqrt t = t` for `0 ≤ t` (`SqrtOK`, satisfied by `Real.sqrt`).  Stated at the level of the
+solve (the orthogonal factor is never formed by the code): every Householder step maps the system to
+an equivalent one (`uᵀu = 2β`, the reflection is an involution), the final matrix is upper triangular
+with diagonal `rdiag`. -/
+
+/-- `QRDecomp::exe` + `tq_product` + `back_substitute` : no exception ⇒ `A x = b` exactly -/
+theorem qrSolve_solves {sqrt : K → K} (hs : SqrtOK sqrt) {n : Nat} {e : K} (he : 0 < e)
+    {A : Mat K} {b x : Vec K} (h : qrSolve sqrt n e A b = some x) : Solves n A x b :=
+  qrSolve_sound hs he h
 
 /-- `QRDecomp::back_substitute(v, a, d, e)` returning normally : `R x = v` where `R` has diagonal
-`d` and strict upper part `a`; and no diagonal entry is null -/
-theorem qrBackSubst_partial {n : Nat} {e : K} (he : 0 < e) (a : Mat K) (d v x : Vec K)
+`d` and strict upper part `a`, and every diagonal entry passed the `e` test -/
+theorem qrBackSubst_triangular {n : Nat} {e : K} (he : 0 < e) (a : Mat K) (d v x : Vec K)
     (h : qrBackSubst n e a d v = some x) :
     ∀ l, l < n → d.get l ≠ 0 ∧
-      d.get l * x.get l + ∑ j ∈ range (n - (l + 1)), a.get l (l + 1 + j) * x.get (l + 1 + j) = v.get l := by
-  unfold qrBackSubst at h
-  simp only [subFrom_eq] at h
-  have key : ∀ c, c ≤ n → ∀ x : Vec K,
-      forRangeOpt 0 c (fun t (v : Vec K) =>
-        if absT (d.get (n - 1 - t)) < e then none
-        else some (v.set (n - 1 - t)
-          ((v.get (n - 1 - t) - ∑ j ∈ range (n - (n - 1 - t + 1)), a.get (n - 1 - t) (n - 1 - t + 1 + j) *
-            v.get (n - 1 - t + 1 + j)) / d.get (n - 1 - t)))) v = some x →
-      (∀ l, n - c ≤ l → l < n → d.get l ≠ 0 ∧
-        d.get l * x.get l + ∑ j ∈ range (n - (l + 1)), a.get l (l + 1 + j) * x.get (l + 1 + j) = v.get l) ∧
-      (∀ l, l < n - c → x.get l = v.get l) := by
-    intro c
-    induction c with
-    | zero =>
-      intro _ x hx
-      rw [forRangeOpt_zero] at hx
-      cases Option.some.inj hx
-      exact ⟨fun l h1 h2 => by omega, fun l _ => rfl⟩
-    | succ c ih =>
-      intro hc x hx
-      rw [forRangeOpt_succ, Option.bind_eq_some_iff] at hx
-      obtain ⟨z, hz, hx⟩ := hx
-      obtain ⟨i1, i2⟩ := ih (by omega) z hz
-      rw [zero_add] at hx
-      obtain ⟨r, hr⟩ : ∃ r, n - 1 - c = r := ⟨_, rfl⟩
-      rw [hr] at hx
-      split_ifs at hx with hchk
-      cases Option.some.inj hx
-      have hd := ne_zero_of_not_absT_lt he hchk
-      have hs : ∀ l, r ≤ l → ∑ j ∈ range (n - (l + 1)), a.get l (l + 1 + j) *
-          (z.set r ((z.get r - ∑ j ∈ range (n - (r + 1)), a.get r (r + 1 + j) * z.get (r + 1 + j)) / d.get r)).get (l + 1 + j) =
-          ∑ j ∈ range (n - (l + 1)), a.get l (l + 1 + j) * z.get (l + 1 + j) := by
-        intro l hl
-        apply sum_congr rfl
-        intro j _
-        rw [Vec.get_set, if_neg (by omega)]
-      constructor
-      · intro l h1 h2
-        rw [hs l (by omega)]
-        by_cases hlr : l = r
-        · subst hlr
-          refine ⟨hd, ?_⟩
-          rw [Vec.get_set, if_pos rfl, ← i2 l (by omega)]
-          field_simp
-          ring
-        · rw [Vec.get_set, if_neg hlr]
-          exact i1 l (by omega) h2
-      · intro l hl
-        rw [Vec.get_set, if_neg (by omega)]
-        exact i2 l (by omega)
-  intro l hl
-  exact (key n (le_refl _) x h).1 l (by omega) hl
+      d.get l * x.get l + ∑ j ∈ range (n - (l + 1)), a.get l (l + 1 + j) * x.get (l + 1 + j) = v.get l :=
+  fun l hl => ⟨ne_zero_of_not_absT_lt he (qrBackSubst_spec he a d v x h l hl).1,
+    (qrBackSubst_spec he a d v x h l hl).2⟩
+
+/-- a successful QR solve ⇒ non-null determinant (the outcome does not depend on the right-hand
+side, so every unit vector can be solved for: a right inverse exists) -/
+theorem qrSolve_det_ne_zero {sqrt : K → K} (hs : SqrtOK sqrt) {n : Nat} {e : K} (he : 0 < e)
+    {A : Mat K} {b x : Vec K} (h : qrSolve sqrt n e A b = some x) : (toMatrix n A).det ≠ 0 := by
+  have hchk : ∀ l, l < n → ¬ absT ((qrDecomp sqrt n A).rdiag.get l) < e := by
+    intro l hl
+    unfold qrSolve at h
+    exact (qrBackSubst_spec he _ _ _ x h l hl).1
+  have hall : ∀ b' : Vec K, ∃ x', qrSolve sqrt n e A b' = some x' := by
+    intro b'
+    unfold qrSolve
+    exact qrBackSubst_some _ _ _ hchk
+  choose X hX using hall
+  have hprod : toMatrix n A * (Matrix.of fun (j i : Fin n) => (X (unitVec i.val)).get j.val) = 1 := by
+    ext r i
+    rw [Matrix.mul_apply, Matrix.one_apply]
+    simp only [toMatrix, Matrix.of_apply]
+    rw [Fin.sum_univ_eq_sum_range (fun j => A.get r.val j * (X (unitVec i.val)).get j) n,
+      qrSolve_solves hs he (hX (unitVec i.val)) r.val r.isLt]
+    simp only [unitVec, Fin.ext_iff]
+  exact Matrix.det_ne_zero_of_right_inverse hprod
+
+/-- exactly null determinant and `e > 0` : the QR solve throws `QRNullPivot`, never returns -/
+theorem qrSolve_singular_fails {sqrt : K → K} (hs : SqrtOK sqrt) {n : Nat} {e : K} (he : 0 < e)
+    {A : Mat K} (b : Vec K) (hdet : (toMatrix n A).det = 0) : qrSolve sqrt n e A b = none := by
+  cases h : qrSolve sqrt n e A b with
+  | none => rfl
+  | some x => exact absurd hdet (qrSolve_det_ne_zero hs he h)
 
 /-- an exactly null diagonal entry of `R` and `e > 0` : `QRDecomp::back_substitute` throws -/
 theorem qrBackSubst_null_pivot_fails {n : Nat} {e : K} (he : 0 < e) (a : Mat K) (d v : Vec K)
     {l : Nat} (hl : l < n) (h0 : d.get l = 0) : qrBackSubst n e a d v = none := by
   cases h : qrBackSubst n e a d v with
   | none => rfl
-  | some x => exact absurd h0 (qrBackSubst_partial he a d v x h l hl).1
+  | some x => exact absurd h0 (qrBackSubst_triangular he a d v x h l hl).1
 
 /-! ### non-vacuity : the hypotheses are satisfiable (`K = ℚ`) -/
 
@@ -429,6 +417,9 @@ example : ∃ s, luDecomp 2 (1/2 : ℚ) { get := fun a b => if a = b then 1 else
   simp [luDecomp, luLoop, luStep, lUpdate, pivotStep, pivotSearch, uUpdate, forRange, sumTo, subFrom,
     absT, Perm.id, Perm.swap, Mat.set]
   norm_num
+
+/-- the hypotheses on the square root hold for the real square root -/
+example : SqrtOK Real.sqrt := ⟨fun t _ => Real.sqrt_nonneg t, fun t h => Real.mul_self_sqrt h⟩
 
 example : luDecomp 1 (1/2 : ℚ) { get := fun _ _ => 0 } = none := by
   simp [luDecomp, luLoop, luStep, lUpdate, pivotStep, pivotSearch, forRange, sumTo, absT, Perm.id]
